@@ -25,6 +25,9 @@ import SfntV.Proofs.TotalCffIndex
 import SfntV.Proofs.TotalCmapDir
 import SfntV.Proofs.TotalOtl
 import SfntV.Proofs.TotalOtlBridge
+import SfntV.Proofs.TotalCffDict
+import SfntV.Proofs.TotalGlyfLazyBridge
+import SfntV.Proofs.TotalMetricsPostBridge
 
 namespace SfntV.Props.C02
 open SfntV SfntV.Total
@@ -448,5 +451,52 @@ theorem C02_gdef_concrete_no_panic (b : Bytes) :
   Gdef.read_noPanic _ _ b
     (fun pos => Total.Gdef.bind_noPanic (Total.Otl.classdefRead_noPanic b pos) (fun _ _ => True.intro))
     (fun pos => Total.Gdef.bind_noPanic (Total.Otl.readSet_noPanic b pos) (fun _ _ => True.intro))
+
+/-! # Round 3: remaining bridges, readIndexAt, tier B
+
+## bridges completed -/
+
+/-- `SimpleGlyph.Decode`: the checked model equals C11's `Glyf.simpleDecode` on every value. -/
+theorem C02_simple_agrees (nc : Int16) (buf : Bytes) :
+    GlyfLazy.toOpt (GlyfLazy.decode nc buf) = Glyf.simpleDecode nc.toInt buf := GlyfLazy.decode_erase nc buf
+
+/-- `post.Read`, every version incl. the format 2 names: equals C14's `Names.postReadWith`. -/
+theorem C02_post_agrees (tbl : List Bytes) (b : Bytes) :
+    Total.Metrics.postResOf (Total.Metrics.erase (Total.Metrics.postRead tbl b)) =
+      Names.postReadWith (tbl.map Total.Metrics.toNats) (Total.Metrics.toNats b) :=
+  Total.Metrics.postRead_erase_names tbl b
+
+/-! ## CFF readIndexAt -/
+
+theorem C02_cffindexat_no_panic (b : Bytes) (pos : Int) : (NameCff.readIndexAt b pos).noPanic :=
+  NameCff.readIndexAt_noPanic b pos
+theorem C02_cffindexat_cost (b : Bytes) (pos : Int) (r : List Bytes × Nat) (c : Cost)
+    (h : NameCff.readIndexAt b pos = .ok (r, c)) :
+    c.steps ≤ 2 * b.length + b.length / 1024 + 3 ∧ c.alloc ≤ 3 * b.length := NameCff.readIndexAt_cost b pos r c h
+theorem C02_cffindexat_agrees (b : Bytes) (pos : Int) :
+    NameCff.eraseAt (NameCff.readIndexAt b pos) = Cff.readIndexAt b pos := NameCff.readIndexAt_erase b pos
+
+/-! ## CFF DICT: decodeDict, decodeFloat -/
+
+/-- `decodeDict` never panics, for every byte string, string table and float parser. -/
+theorem C02_cffdict_no_panic (E : Total.CffDict.Env) (buf : Bytes) : (Total.CffDict.decodeDict E buf).noPanic :=
+  Total.CffDict.decodeDict_noPanic E buf
+
+/-- … and is linear (every operand costs at least one byte; there is no operand-stack limit). -/
+theorem C02_cffdict_cost (E : Total.CffDict.Env) (buf : Bytes) (d : Total.CffDict.Dict) (c : Cost)
+    (h : Total.CffDict.decodeDict E buf = .ok (d, c)) : c.steps ≤ 3 * buf.length ∧ c.alloc ≤ 9 * buf.length + 1 :=
+  Total.CffDict.decodeDict_cost E buf d c h
+
+theorem C02_cfffloat_no_panic (E : Total.CffDict.Env) (buf : Bytes) : (Total.CffDict.decodeFloat E buf).noPanic :=
+  Total.CffDict.decodeFloat_noPanic E buf
+
+theorem C02_cfffloat_cost (E : Total.CffDict.Env) (buf : Bytes) (r : Bytes × List Nat × Total.CffDict.Real) (c : Cost)
+    (h : Total.CffDict.decodeFloat E buf = .ok (r, c)) : c.steps ≤ 2 * buf.length ∧ c.alloc ≤ 8 * buf.length :=
+  Total.CffDict.decodeFloat_cost E buf r c h
+
+/-- Bridge to C13's `Cff.decodeDict`. -/
+theorem C02_cffdict_agrees (std custom : Array String) (buf : Bytes) :
+    Total.CffDict.eraseCost (Total.CffDict.decodeDict (Total.CffDict.envC13 std custom) buf) =
+      Cff.decodeDict std custom buf := Total.CffDict.decodeDict_erase std custom buf
 
 end SfntV.Props.C02
